@@ -75,6 +75,12 @@ def programs(tier):
         p.enum("Ec", [("K0", []), ("K1", [TAdt("Sc")])], derives=["ToJson", "//", "|", "ToString", "//"])
     add("derive-attribute-followed-by-comment", [Let("v", Struct(TAdt("Sc"), [("a", Int(3)), ("s", Str("x"))]), ty=TAdt("Sc"))] + both("v", "Sc")
         + [Let("w", Ctor(TAdt("Ec"), "K1", Var("v")), ty=TAdt("Ec"))] + both("w", "Ec"), expect="accept", extra_decl=commented)
+    for style, sname in (("//]", "brackets"), ("//#", "attribute-like-text"), ("//)", "closers-and-quotes")):
+        def commented2(p, style=style):
+            p.struct("Sc", [("a", INT32), ("s", STRING)], derives=["ToString", "ToJson", style])
+            p.enum("Ec", [("K0", []), ("K1", [TAdt("Sc")])], derives=["ToJson", style, "|", "ToString", style])
+        add(f"derive-attribute-followed-by-comment:{sname}", [Let("v", Struct(TAdt("Sc"), [("a", Int(3)), ("s", Str("x"))]), ty=TAdt("Sc"))] + both("v", "Sc")
+            + [Let("w", Ctor(TAdt("Ec"), "K1", Var("v")), ty=TAdt("Ec"))] + both("w", "Ec"), expect="accept", extra_decl=commented2)
     # stacked derive attributes: #[derive(ToString)] and #[derive(ToJson)] on separate lines mean the same as one combined attribute
     def stacked(p):
         p.struct("St", [("a", INT32), ("s", STRING)], derives=["ToString"])
